@@ -118,6 +118,21 @@ func buildFixture(base string, cats map[string]catalog, j *job, salt int64) *bui
 		kit.Must(db.Close())
 		return res
 	}
+	// one regular object per container, so that every container has a metadata bucket (the container source
+	// is then asked about every container in every transaction)
+	{
+		mb := openMeta(path, e.es)
+		kit.Must(mb.Open(false))
+		kit.Must(mb.Init(common.ID{}))
+		var batch []*object.Object
+		for c := 1; c <= nc; c++ {
+			p := w.padRegular(r, c, len(w.reg))
+			batch = append(batch, p.obj)
+			w.reg = append(w.reg, p)
+		}
+		kit.Must(mb.PutBatch(batch))
+		kit.Must(mb.Close())
+	}
 	// padding through the real metabase
 	if j.Unit > 0 {
 		have := countAssocs()
@@ -146,6 +161,10 @@ func buildFixture(base string, cats map[string]catalog, j *job, salt int64) *bui
 		known[w.oids[i]] = h.Value()
 	}
 	for _, p := range w.pad {
+		h, _ := p.obj.PayloadHomomorphicHash()
+		known[p.obj.GetID()] = h.Value()
+	}
+	for _, p := range w.reg {
 		h, _ := p.obj.PayloadHomomorphicHash()
 		known[p.obj.GetID()] = h.Value()
 	}
@@ -349,7 +368,7 @@ func (r *runner) compareView(db *meta.DB) ([]bool, bool, []string) {
 	diff := []string{}
 	for c := 1; c <= r.b.fx.nc; c++ {
 		eq[c-1] = canon(v[c]) == r.b.refView[c]
-		if !eq[c-1] {
+		if !eq[c-1] && !r.gone[r.b.w.cids[c]] {
 			for _, d := range viewDiff(r.b.refFull[c], v[c]) {
 				diff = append(diff, fmt.Sprintf("c%d %s", c, d))
 			}
